@@ -147,7 +147,7 @@ impl Prop for C06 {
         cov.sim_ns += w.sim_ns;
         cov.ops += w.ops;
         let decisions = match r {
-            Err(v) => return RunResult { trace_hash: tr.hash(), violation: Some(v) },
+            Err(v) => return RunResult::new(tr.hash(), Some(v)),
             Ok(d) => d,
         };
         // (c) no cross-talk: project onto one value and re-execute 50 simulated minutes later
@@ -183,7 +183,7 @@ impl Prop for C06 {
                 cov.hit("projection_runs");
                 match r2 {
                     Err(v) => {
-                        return RunResult { trace_hash: tr.hash(), violation: Some(Violation::new(format!("{}/in-projection", v.signature), 0, v.detail)) };
+                        return RunResult { rewrite: None, trace_hash: tr.hash(), violation: Some(Violation::new(format!("{}/in-projection", v.signature), 0, v.detail)) };
                     }
                     Ok(d2) => {
                         let full: Vec<bool> = decisions.iter().filter(|d| d.0.as_deref() == Some(keep.as_str())).map(|d| d.1).collect();
@@ -191,6 +191,7 @@ impl Prop for C06 {
                         if full != proj {
                             let at = full.iter().zip(proj.iter()).position(|(a, b)| a != b).unwrap_or(full.len().min(proj.len()));
                             return RunResult {
+ rewrite: None,
                                 trace_hash: tr.hash(),
                                 violation: Some(Violation::new(
                                     "C06/crosstalk/decisions-differ",
@@ -203,7 +204,7 @@ impl Prop for C06 {
                 }
             }
         }
-        RunResult { trace_hash: tr.hash(), violation: None }
+        RunResult::new(tr.hash(), None)
     }
 
     fn shrink(&self, scenario: &Value) -> Vec<Value> {
